@@ -1,9 +1,9 @@
 //! C02 — extensivity.  Emits, per configuration, the regenerated program with its degree
 //! obligations and translation-validation evaluations, and runs the scaling / Euler / Gibbs-Duhem
 //! oracle on the public State API (the search of DESIGN.md §4, always on).
-use crate::configs::{self, Config, RState, Rng};
-use crate::emit;
-use crate::trace::{self, trace_two};
+use feos_verif::configs::{self, Config, RState, Rng};
+use feos_verif::emit;
+use feos_verif::trace;
 use feos::ResidualModel;
 use feos_core::{Contributions, ReferenceSystem, State};
 use ndarray::Array1;
@@ -105,11 +105,17 @@ pub fn euler_checks(model: &Arc<ResidualModel>, s: &RState, lam: f64) -> Vec<Che
 
 pub const ORACLE_TOL: f64 = 1e-8;
 
-pub fn run(out_dir: &str, tier: &str, seed: u64) -> Value {
+pub fn run(out_dir: &str, tier: &str, seed: u64, only: Option<String>, oracle_n: Option<usize>) -> Value {
     let full = tier == "thorough";
-    let cfgs: Vec<Config> = configs::all(full).into_iter().filter(|c| full || c.core).collect();
+    let cfgs: Vec<Config> = configs::all(full || only.is_some())
+        .into_iter()
+        .filter(|c| match &only {
+            Some(o) => &c.name == o,
+            None => full || c.core,
+        })
+        .collect();
     let k_tv = if full { 6 } else { 3 };
-    let k_oracle = if full { 200 } else { 40 };
+    let k_oracle = oracle_n.unwrap_or(if full { 200 } else { 40 });
     let mut results = Vec::new();
     for c in &cfgs {
         let mut rng = Rng(seed ^ trace::fxhash(&c.name));
@@ -117,25 +123,54 @@ pub fn run(out_dir: &str, tier: &str, seed: u64) -> Value {
         let mut sb = configs::sample_state(c, &mut rng);
         // make sure the two trace states differ in every coordinate
         sb.t = sa.t * 1.37;
-        let tr = trace_two(c.model.as_ref(), &sa, &sb);
         let tv_states: Vec<RState> = (0..k_tv).map(|_| configs::sample_state(c, &mut rng)).collect();
-        let tv_impl: Vec<Vec<f64>> = tv_states.iter().map(|s| trace::eval_f64(c.model.as_ref(), s)).collect();
-        // Coq file
+        let set = trace::trace_set(c.model.as_ref(), &sa, &sb, &tv_states);
+        // Coq file: one block per distinct program shape
         let mut v = emit::header(&["ProgSem", "Homog"]);
-        v.push_str(&tr.prog.emit_coq("P"));
-        v.push_str(&format!("Definition P_ncomp : nat := {}.\n", c.ncomp));
-        v.push_str(&emit::states_def("P_states", &tv_states));
-        // diagnostics first (printed even when an obligation below fails)
-        v.push_str("Eval vm_compute in (\"DEG\", map (fun k => nth k (deg_eval P_prog (d0_thermo P_ncomp (zero_flags P_consts))) DNone) (seq 0 P_nouts)).\n");
-        v.push_str("Eval vm_compute in (\"EVDEG\", map (fun k => nth k (deg_eval P_prog (d0_thermo P_ncomp (zero_flags P_consts))) DNone) P_re).\n");
-        v.push_str("Eval vm_compute in (\"FIRSTNONE\", first_none P_prog (d0_thermo P_ncomp (zero_flags P_consts))).\n");
-        v.push_str("Eval vm_compute in (\"TV\", map (fun st => map (fun k => nth k (evalI 53%Z P_prog (st ++ P_consts)) I.nai) (seq 0 P_nouts)) P_states).\n");
-        // obligations
-        v.push_str("Lemma P_homogeneous_check : outputs_deg P_prog P_ncomp (zero_flags P_consts) P_nouts 1%Z = true.\nProof. vm_compute. reflexivity. Qed.\n");
-        v.push_str("Lemma P_events_check : events_deg0 P_prog P_ncomp (zero_flags P_consts) P_re = true.\nProof. vm_compute. reflexivity. Qed.\n");
-        v.push_str("Definition P_extensive := program_homogeneous P_prog _ _ _ 1%Z P_homogeneous_check.\n");
-        v.push_str("Definition P_branches_scale_invariant := events_invariant P_prog _ _ _ P_events_check.\n");
-        v.push_str("Check P_extensive.\nCheck P_branches_scale_invariant.\n");
+        v.push_str("From FeosProps Require Import C02.\n");
+        v.push_str(&format!("Definition ncomp : nat := {}.\n", c.ncomp));
+        let mut progs_json = Vec::new();
+        let lam_t = 3.7;
+        for (i, tr) in set.progs.iter().enumerate() {
+            let p = format!("P{i}");
+            v.push_str(&tr.prog.emit_coq(&p));
+            v.push_str(&set.emit_inputs("P", i));
+            let body = r#"
+Definition P_degs := deg_eval P_prog (d0_thermo ncomp (zero_flags P_consts)).
+Eval vm_compute in ("DEG", "P", map (fun j => nth (P_out j) P_degs DNone) (seq 0 P_nouts)).
+Eval vm_compute in ("EVDEG", "P", map (fun k => nth k P_degs DNone) P_re).
+Eval vm_compute in ("CMPDEG", "P", map (fun ab => (nth (fst ab) P_degs DNone, nth (snd ab) P_degs DNone)) P_cmp).
+Eval vm_compute in ("FIRSTNONE", "P", first_none P_prog (d0_thermo ncomp (zero_flags P_consts))).
+Eval vm_compute in ("TV", "P", map (fun st => map (fun j => nth (P_out j) (evalI 53%Z P_prog st) I.nai) (seq 0 P_nouts)) P_inputs).
+Lemma P_homogeneous_check : outputs_deg P_prog ncomp (zero_flags P_consts) P_nouts 1%Z = true.
+Proof. vm_compute. reflexivity. Qed.
+Lemma P_events_check : events_sign_ok P_prog ncomp (zero_flags P_consts) P_re = true.
+Proof. vm_compute. reflexivity. Qed.
+Lemma P_cmp_check : events_cmp_ok P_prog ncomp (zero_flags P_consts) P_cmp = true.
+Proof. vm_compute. reflexivity. Qed.
+Definition P_extensive := C02_program_homogeneous P_prog _ _ _ 1%Z P_homogeneous_check.
+Definition P_observed_signs_scale_invariant := C02_observed_signs_scale_invariant P_prog _ _ _ P_events_check.
+Definition P_comparisons_scale_invariant := C02_comparisons_scale_invariant P_prog _ _ _ P_cmp_check.
+Check P_extensive.
+Check P_observed_signs_scale_invariant.
+Check P_comparisons_scale_invariant.
+"#;
+            v.push_str(&body.replace("P_", &format!("{p}_")).replace("\"P\"", &format!("\"{p}\"")));
+            // scaled differential trace: a scale-dependent value that escaped through `.re()` into f64
+            // arithmetic shows up as a constant that differs (or as a different shape)
+            let base = if i == 0 { sa.clone() } else { set.tv.iter().find(|(k, _, _)| *k == i).unwrap().1.clone() };
+            let sc = RState { t: base.t, v: base.v * lam_t, n: base.n.iter().map(|x| x * lam_t).collect() };
+            let pc = trace::trace_residual(c.model.as_ref(), &sc);
+            let cs = feos_verif::prog::compare(&tr.raw, &pc);
+            progs_json.push(json!({
+                "name": p, "ninstr": tr.prog.instrs.len(), "nconsts": tr.prog.consts.len(),
+                "outs": tr.prog.outs, "n_re": tr.prog.re_events.len(), "n_cmp": tr.prog.cmp_events.len(),
+                "same_shape": tr.same_shape, "leaks": tr.leaks, "unsupported": tr.prog.unsupported,
+                "scaled_same_shape": cs.same_shape, "scaled_leaks": cs.leaks, "trace_state": base.vars(),
+                "tv_states": set.tv.iter().filter(|(k, _, _)| *k == i).map(|(_, s, _)| s.vars()).collect::<Vec<_>>(),
+                "tv_impl": set.tv.iter().filter(|(k, _, _)| *k == i).map(|(_, s, _)| trace::eval_f64(c.model.as_ref(), s)).collect::<Vec<_>>(),
+            }));
+        }
         std::fs::write(format!("{out_dir}/{}.v", c.name), v).unwrap();
         // oracle on the State API
         let mut nchecks = 0usize;
@@ -164,16 +199,15 @@ pub fn run(out_dir: &str, tier: &str, seed: u64) -> Value {
             }
         }
         results.push(json!({
-            "name": c.name, "ncomp": c.ncomp,
-            "ninstr": tr.prog.instrs.len(), "nconsts": tr.prog.consts.len(),
-            "nouts": tr.prog.outs.len(), "outs": tr.prog.outs,
-            "n_re": tr.prog.re_events.len(), "n_cmp": tr.prog.cmp_events.len(),
-            "same_shape": tr.same_shape, "leaks": tr.leaks, "unsupported": tr.prog.unsupported,
-            "trace_state": sa.vars(),
-            "tv_states": tv_states.iter().map(|s| s.vars()).collect::<Vec<_>>(),
-            "tv_impl": tv_impl,
+            "name": c.name, "ncomp": c.ncomp, "programs": progs_json,
             "oracle": {"checks": nchecks, "worst_rel": if worst.is_finite() { json!(worst) } else { json!("inf") }, "failures": failures, "tol": ORACLE_TOL, "lambda_samples": lam_hist},
         }));
     }
     json!({"property": "C02", "tier": tier, "seed": seed, "configs": results})
+}
+
+fn main() {
+    let cli = feos_verif::cli::Cli::parse("/verif/coq/gen/C02");
+    let res = run(&cli.out, &cli.tier, cli.seed, cli.opt("--only"), cli.opt("--oracle").and_then(|s| s.parse().ok()));
+    cli.write_impl(&res);
 }
